@@ -431,7 +431,12 @@ theorem centrifuge_origin_check (r : Request) :
     | none => simp
     | some h => simp [foldEq_iff]
 
-/-! ### Finding C31-1: `Upgrade` can panic -/
+/-! ### `Upgrade` never panics (finding C31-1, fixed upstream by commit 9d680c6d)
+
+Before the fix `isValidChallengeKey` decoded into a 16-byte buffer and the model had
+`upgrade centrifugeCfg (h1Request "AAAAAAAAAAAAAAAAAAAAAAAA") = .panic` (decided witness) with only a
+`…_partial` no-panic theorem (keys with ≤ 22 alphabet characters).  With the `DecodedLen`-sized
+buffer the statement holds for every request. -/
 
 theorem upgrade_panic_only_key (cfg : Config) (r : Request) (h : upgrade cfg r = .panic) :
     isValidChallengeKey (r.get "Sec-Websocket-Key") = .panic := by
@@ -439,13 +444,10 @@ theorem upgrade_panic_only_key (cfg : Config) (r : Request) (h : upgrade cfg r =
   repeat' (split at h)
   all_goals (try (cases hk : isValidChallengeKey (r.get "Sec-Websocket-Key") <;> simp_all))
 
-/-- `Upgrade` does not panic …_partial: only for requests whose key has at most 22 alphabet
-characters.  Full statement (false, see the witness below): `∀ cfg r, upgrade cfg r ≠ .panic`. -/
-theorem upgrade_no_panic_partial (cfg : Config) (r : Request)
-    (hk : alphaCount (r.get "Sec-Websocket-Key") ≤ 22) : upgrade cfg r ≠ .panic := by
-  intro h
-  have := key_panic_needs_23 _ (upgrade_panic_only_key cfg r h)
-  omega
+/-- **every request gets an answer**: `Upgrade` accepts or rejects with an HTTP status, it never
+panics — for all configurations and all requests. -/
+theorem upgrade_no_panic (cfg : Config) (r : Request) : upgrade cfg r ≠ .panic :=
+  fun h => key_no_panic _ (upgrade_panic_only_key cfg r h)
 
 /-! ### witnesses / non-vacuity -/
 
@@ -460,8 +462,9 @@ def centrifugeCfg : Config :=
   { subprotocols := some [ascii "centrifuge-json", ascii "centrifuge-protobuf"], enableCompression := true,
     disableHTTP1Upgrade := false, checkOrigin := none }
 
-theorem upgrade_panics_witness :
-    upgrade centrifugeCfg (h1Request (ascii "AAAAAAAAAAAAAAAAAAAAAAAA")) = .panic := by decide
+/-- the key that used to panic (24 alphabet characters, decodes to 18 bytes) is now rejected -/
+theorem former_panic_key_rejected :
+    upgrade centrifugeCfg (h1Request (ascii "AAAAAAAAAAAAAAAAAAAAAAAA")) = .reject 400 .badKey := by decide
 
 theorem rfc6455_example_accept :
     computeAcceptKey (ascii "dGhlIHNhbXBsZSBub25jZQ==") = ascii "s3pPLMBiTxaQ9kYGzzhZRbK+xOo=" := by decide +kernel
